@@ -42,6 +42,9 @@ def forms(text):
     yield "bytes", lambda: b
     yield "lines+nl", lambda: text.splitlines(True)
     yield "lines", lambda: text.split("\n")[:-1] if text.endswith("\n") else text.split("\n")
+    if text.endswith("\n") and not text.endswith("\n\n"):
+        yield "str without the final newline", lambda: text[:-1]
+        yield "bytes without the final newline", lambda: b[:-1]
     yield "text file", lambda: io.StringIO(text)
     yield "binary file", lambda: io.BytesIO(b)
     try:
